@@ -14,6 +14,7 @@ EXPLANATION = (
     "declared with #[token] and the variable ones with the documented patterns."
     " (TABLE ascii-classes-only) no token pattern uses a Unicode-wide class; (UNIT Span.line_end/col_end) a token's end position is computed after the newlines inside it were counted."
     ' (TABLE as languages) token patterns are compared with the documented ones as regular languages (rules/rxlang.py: inclusion both ways on the product automaton, shortest counterexample); (CALLBACK-TOTAL) every text a pattern with a parsing callback matches has the syntax the callback accepts - logos does not fall back to a shorter match.'
+    ' (TABLE) the conflict markers are tokens of the table.'
 )
 UNDECIDED = "longest-match and tiling themselves (trusted to the logos crate's matching semantics)."
 
